@@ -23,8 +23,10 @@ def capture_call(c, backend):
 
 
 def code_fingerprint(f):
-    co = f.__code__
-    return (co.co_code, tuple(repr(x) for x in co.co_consts), co.co_names, co.co_varnames)
+    def fp(co):
+        # nested function definitions appear as code objects among the constants (their repr holds an address)
+        return (co.co_code, tuple(fp(x) if hasattr(x, "co_code") else repr(x) for x in co.co_consts), co.co_names, co.co_varnames)
+    return fp(f.__code__)
 
 
 def _work(c):
@@ -142,7 +144,18 @@ def synthetic_graph(rng):
             cp = py.call(py.getattr(np_, "copy"), [a])
             v = py.additem(cp, rng.randint(0, 3), rng.randint(1, 9)) if rng.random() < 0.5 else py.setitem(cp, slice(0, 2), 7)
             desc.append("updateitem")
-        elif r < 0.93:
+        elif r < 0.9:
+            # a nested function definition that closes over a value of the enclosing function which later statements use too
+            row = py.Value(None)
+            body = py.call(py.getattr(np_, rng.choice(["multiply", "add", "subtract"])), [row, a])
+            if rng.random() < 0.4:
+                body = py.operator("+", body, rng.choice(pool))
+            fn = tracer.Graph([row], body)
+            if rng.random() < 0.6:
+                pool.append(py.call(py.getattr(np_, rng.choice(["cumsum", "negative", "abs"])), [a]))     # a later reader of the captured value
+            v = py.call(py.getattr(np_, "apply_along_axis"), [fn, 0, b])
+            desc.append("nested_def")
+        elif r < 0.95:
             v = py.call(py.getattr(np_, "where"), [py.operator("<", a, b), a, b])
             desc.append("compare")
         else:
@@ -227,7 +240,11 @@ def run(ctx):
     stats = {"pairs": 0, "validated": 0, "unsupported": 0, "executed": 0, "events": 0}
     for c, it in items:
         stats["pairs"] += 1
-        if "not_straight_line" in it:
+        if "not_straight_line" in it and "FunctionDef" in it["not_straight_line"] and "nested graph" in it.get("unsupported", ""):
+            # a nested function definition is outside the validated language (no einx call on numpy produces one): such synthetic
+            # graphs are decided by executing the text against the node-by-node evaluation only
+            stats["nested_def_graphs_exec_only"] = stats.get("nested_def_graphs_exec_only", 0) + 1
+        elif "not_straight_line" in it:
             ctx.report({"kind": "text_not_in_straight_line_subset", "family": c.family, "backend": it["backend"], "why": it["not_straight_line"]},
                        {"call": c.record(), "code": it["text"]})
             continue
